@@ -65,25 +65,30 @@ func (f *NameField) GenEncodeInto() (string, error) {
 
 func (f *NameField) GenReadFrom() (string, error) {
 	var g strErrBuf
-	const Temp = `value.{{.Name}} = make(enc.Name, l/2+1)
-	startName := reader.Pos()
-	endName := startName + int(l)
-	for j := range value.{{.Name}} {
-		if reader.Pos() >= endName {
-			value.{{.Name}} = value.{{.Name}}[:j]
-			break
+	// The length is checked against the remaining input before allocating (l is attacker-controlled).
+	const Temp = `if rem := reader.Length() - reader.Pos(); rem < 0 || l > enc.TLNum(rem) {
+		err = io.ErrUnexpectedEOF
+	} else {
+		value.{{.Name}} = make(enc.Name, l/2+1)
+		startName := reader.Pos()
+		endName := startName + int(l)
+		for j := range value.{{.Name}} {
+			if reader.Pos() >= endName {
+				value.{{.Name}} = value.{{.Name}}[:j]
+				break
+			}
+			var err1, err3 error
+			value.{{.Name}}[j].Typ, err1 = enc.ReadTLNum(reader)
+			l, err2 := enc.ReadTLNum(reader)
+			value.{{.Name}}[j].Val, err3 = reader.ReadBuf(int(l))
+			if err1 != nil || err2 != nil || err3 != nil {
+				err = io.ErrUnexpectedEOF
+				break
+			}
 		}
-		var err1, err3 error
-		value.{{.Name}}[j].Typ, err1 = enc.ReadTLNum(reader)
-		l, err2 := enc.ReadTLNum(reader)
-		value.{{.Name}}[j].Val, err3 = reader.ReadBuf(int(l))
-		if err1 != nil || err2 != nil || err3 != nil {
-			err = io.ErrUnexpectedEOF
-			break
+		if err == nil && reader.Pos() != endName {
+			err = enc.ErrBufferOverflow
 		}
-	}
-	if err == nil && reader.Pos() != endName {
-		err = enc.ErrBufferOverflow
 	}
 	`
 	t := template.Must(template.New("NameEncodeInto").Parse(Temp))
